@@ -293,6 +293,8 @@ package ext
 //@   allocates
 //@   top-ensures contentLength >= 0 && err == nil ==> len(b) <= contentLength && len(b) <= 8192 && zr.pos == old(zr.pos) + len(b) && forall(k, 0, len(b), b[k] == wire(zr, old(zr.pos) + k))
 //@   top-ensures contentLength >= 0 && err == nil ==> len(b) == ite(contentLength <= 8192, contentLength, 8192)
+//@   top-ensures contentLength >= 0 ==> zr.pos <= old(zr.pos) + contentLength
+//@   replay-go body := strings.Repeat("b", 101); zr2 := mock.NewZeroCopyReader(body + "GET /probe HTTP/1.1\r\nHost: e\r\n\r\n"); b2, err2 := ReadBodyWithStreaming(zr2, 101, 100, nil); if len(b2) > 101 { fmt.Printf("VCGO-VIOLATED Content-Length 101 with limit 100: the prefetch took %d bytes (err %v); %q belongs to the next request\n", len(b2), err2, b2[101:]) }
 
 // A released stream object goes back into its pool with every field cleared (C09 for the stream object).
 //@ func bodyStream.reset(rs)
